@@ -226,3 +226,41 @@ pub fn global_kernels() {
     kani::cover!(tm_a.is_none() && tm_b.is_some(), "flag only in the incoming operand");
     core::mem::forget((ab, ba, r1, r2));
 }
+
+/// Stand-in for `PartiallySignedTransaction::unique_id` in the PSET-level merge harness: both operands
+/// describe the same transaction by construction; computing the id hashes the whole transaction, which
+/// does not fit (DESIGN 7.1). The gate itself (different ids are refused) is therefore NOT checked here.
+pub fn same_unique_id(_p: &Pset) -> Result<elements::Txid, PsetError> {
+    // an equal, hash-free value on both sides (comparing two 32-byte ids needs a 33-iteration memcmp
+    // unwinding that the rest of the harness cannot afford)
+    Err(PsetError::InputCountMismatch)
+}
+
+// NOT REGISTERED: does not finish within 15 min (PSET structs)
+// prop=C14 desc="PartiallySignedTransaction::merge (unique-id gate stubbed to 'equal') on two PSETs with one default input and one default output each: input-, output- and global-level optional fields present only in the merged-in PSET are present afterwards"
+#[kani::proof]
+#[kani::unwind(6)]
+#[kani::stub(elements::pset::PartiallySignedTransaction::unique_id, same_unique_id)]
+#[kani::stub(alloc::fmt::format, stubs::fmt_format_empty)]
+pub fn pset_merge_keeps_all_levels() {
+    let mk = || {
+        let mut p = Pset::new_v2();
+        p.add_input(Input::default());
+        p.add_output(Output::default());
+        p
+    };
+    let mut a = mk();
+    let mut b = mk();
+    let (seq, bi, tm): (u32, u32, u8) = (kani::any(), kani::any(), kani::any());
+    b.inputs_mut()[0].sequence = Some(elements::Sequence(seq));
+    b.outputs_mut()[0].blinder_index = Some(bi);
+    b.global.tx_data.tx_modifiable = Some(tm);
+    let r = a.merge(b);
+    assert!(r.is_ok(), "PSETs of the same transaction merge");
+    assert!(a.inputs()[0].sequence == Some(elements::Sequence(seq)), "input-level field of the merged-in PSET is kept");
+    assert!(a.outputs()[0].blinder_index == Some(bi), "output-level field of the merged-in PSET is kept");
+    assert!(a.global.tx_data.tx_modifiable == Some(tm), "global field of the merged-in PSET is kept");
+    assert!(a.n_inputs() == 1 && a.n_outputs() == 1);
+    kani::cover!(true, "merged");
+    core::mem::forget((a, r));
+}
